@@ -569,6 +569,174 @@ func main() {
 		return true
 	})
 
+	// 6b. ValidateParams: which levels a configuration may carry, per type
+	//   switch *ct { case A, B: if <disjunction of p.Level == zlib.X and (p.Level >= zlib.L && p.Level <= zlib.H)> { return nil }
+	//                case C: return nil }
+	//   if p.Level != 0 { return error }; return nil
+	zlibConst := map[string]int{"DefaultCompression": -1, "HuffmanOnly": -2, "NoCompression": 0, "BestSpeed": 1, "BestCompression": 9}
+	vp := funcDecl(tf, "Type", "ValidateParams")
+	type levelRule struct {
+		typ     string
+		singles []int
+		ranges  [][2]int
+	}
+	var levelRules []levelRule
+	var anyLevel []string
+	if len(vp.Body.List) != 3 {
+		die("ValidateParams no longer has 3 statements {switch; if p.Level != 0 {return err}; return nil}")
+	}
+	vsw, ok := vp.Body.List[0].(*ast.SwitchStmt)
+	if !ok {
+		die("ValidateParams: first statement is not a switch")
+	}
+	levelConst := func(e ast.Expr) int {
+		switch x := e.(type) {
+		case *ast.SelectorExpr:
+			if v, ok := zlibConst[x.Sel.Name]; ok {
+				return v
+			}
+		case *ast.BasicLit:
+			if v, err := strconv.Atoi(x.Value); err == nil {
+				return v
+			}
+		}
+		die("ValidateParams: unrecognised level constant")
+		return 0
+	}
+	isLevel := func(e ast.Expr) bool {
+		se, ok := e.(*ast.SelectorExpr)
+		return ok && se.Sel.Name == "Level"
+	}
+	var walkCond func(e ast.Expr, r *levelRule)
+	walkCond = func(e ast.Expr, r *levelRule) {
+		switch x := e.(type) {
+		case *ast.ParenExpr:
+			walkCond(x.X, r)
+		case *ast.BinaryExpr:
+			switch x.Op {
+			case token.LOR:
+				walkCond(x.X, r)
+				walkCond(x.Y, r)
+			case token.EQL:
+				if !isLevel(x.X) {
+					die("ValidateParams: comparison is not on p.Level")
+				}
+				r.singles = append(r.singles, levelConst(x.Y))
+			case token.LAND:
+				lo, ok1 := x.X.(*ast.BinaryExpr)
+				hi, ok2 := x.Y.(*ast.BinaryExpr)
+				if !ok1 || !ok2 || lo.Op != token.GEQ || hi.Op != token.LEQ || !isLevel(lo.X) || !isLevel(hi.X) {
+					die("ValidateParams: range is not `p.Level >= A && p.Level <= B`")
+				}
+				r.ranges = append(r.ranges, [2]int{levelConst(lo.Y), levelConst(hi.Y)})
+			default:
+				die("ValidateParams: unexpected operator %s", x.Op)
+			}
+		default:
+			die("ValidateParams: unexpected condition")
+		}
+	}
+	for _, c := range vsw.Body.List {
+		cc := c.(*ast.CaseClause)
+		if cc.List == nil || len(cc.Body) != 1 {
+			die("ValidateParams: unexpected clause shape")
+		}
+		var types []string
+		for _, e := range cc.List {
+			id, ok := e.(*ast.Ident)
+			if !ok {
+				die("ValidateParams: case label is not a Type constant")
+			}
+			v, ok := typeConst[id.Name]
+			if !ok {
+				die("ValidateParams: unknown type constant %s", id.Name)
+			}
+			types = append(types, v)
+		}
+		switch st := cc.Body[0].(type) {
+		case *ast.ReturnStmt:
+			if id, ok := st.Results[0].(*ast.Ident); !ok || id.Name != "nil" {
+				die("ValidateParams: unconditional clause does not return nil")
+			}
+			anyLevel = append(anyLevel, types...)
+		case *ast.IfStmt:
+			if st.Else != nil || len(st.Body.List) != 1 {
+				die("ValidateParams: level clause has an unexpected shape")
+			}
+			if rs, ok := st.Body.List[0].(*ast.ReturnStmt); !ok || len(rs.Results) != 1 {
+				die("ValidateParams: level clause does not return")
+			} else if id, ok := rs.Results[0].(*ast.Ident); !ok || id.Name != "nil" {
+				die("ValidateParams: level clause does not return nil")
+			}
+			for _, ty := range types {
+				r := levelRule{typ: ty}
+				walkCond(st.Cond, &r)
+				levelRules = append(levelRules, r)
+			}
+		default:
+			die("ValidateParams: unexpected clause body")
+		}
+	}
+	fb, ok := vp.Body.List[1].(*ast.IfStmt)
+	if !ok {
+		die("ValidateParams: second statement is not the fallback test")
+	}
+	fbe, ok := fb.Cond.(*ast.BinaryExpr)
+	if !ok || fbe.Op != token.NEQ || !isLevel(fbe.X) {
+		die("ValidateParams: fallback test is not `p.Level != <n>`")
+	}
+	fallbackLevel := levelConst(fbe.Y)
+	// ToClient: `if hcs.CompressionParams.Level == 0 { … = configcompression.DefaultCompressionLevel }`, DefaultCompressionLevel = zlib.DefaultCompression
+	unsetBecomes := 1 << 30
+	for _, d := range tf.Decls {
+		gd, ok := d.(*ast.GenDecl)
+		if !ok || gd.Tok != token.CONST {
+			continue
+		}
+		for _, sp := range gd.Specs {
+			vs := sp.(*ast.ValueSpec)
+			for i, n := range vs.Names {
+				if n.Name == "DefaultCompressionLevel" && i < len(vs.Values) {
+					unsetBecomes = levelConst(vs.Values[i])
+				}
+			}
+		}
+	}
+	if unsetBecomes == 1<<30 {
+		die("DefaultCompressionLevel not found")
+	}
+	hfile := parse(filepath.Join(repo, "config/confighttp/confighttp.go"))
+	unsetGuard := false
+	ast.Inspect(funcDecl(hfile, "ClientConfig", "ToClient"), func(n ast.Node) bool {
+		is, ok := n.(*ast.IfStmt)
+		if !ok {
+			return true
+		}
+		be, ok := is.Cond.(*ast.BinaryExpr)
+		if !ok || be.Op != token.EQL || !isLevel(be.X) {
+			return true
+		}
+		if bl, ok := be.Y.(*ast.BasicLit); ok && bl.Value == "0" && mentions(is.Body, "DefaultCompressionLevel") {
+			unsetGuard = true
+		}
+		return true
+	})
+	if !unsetGuard {
+		die("ToClient: `if Level == 0 { Level = DefaultCompressionLevel }` not found")
+	}
+	// which writer constructors receive the level (newWriteCloserResetFunc)
+	var passesLevel [][2]string
+	for _, c := range sw.Body.List {
+		cc := c.(*ast.CaseClause)
+		uses := "false"
+		if mentions(cc, "Level") {
+			uses = "true"
+		}
+		for _, e := range cc.List {
+			passesLevel = append(passesLevel, [2]string{typeConst[e.(*ast.SelectorExpr).Sel.Name], uses})
+		}
+	}
+
 	// 7. confighttp.go: defaults and wrapper order in ToServer
 	hf := parse(filepath.Join(repo, "config/confighttp/confighttp.go"))
 	var defAlgos []string
@@ -732,6 +900,36 @@ func main() {
 	}
 	b.WriteString("]\n\n/-- configcompression.Type values accepted by `UnmarshalText` -/\n")
 	fmt.Fprintf(&b, "def clientTypes : List String := %s\n\n", leanStrList(accepted))
+	b.WriteString("/-- `Type.ValidateParams`: per type, the accepted single levels and inclusive ranges -/\n")
+	b.WriteString("def levelRules : List (String × (List Int × List (Int × Int))) := [")
+	for i, r := range levelRules {
+		if i > 0 {
+			b.WriteString(", ")
+		}
+		var sg, rg []string
+		for _, v := range r.singles {
+			sg = append(sg, fmt.Sprintf("(%d : Int)", v))
+		}
+		for _, v := range r.ranges {
+			rg = append(rg, fmt.Sprintf("((%d : Int), (%d : Int))", v[0], v[1]))
+		}
+		fmt.Fprintf(&b, "(%s, ([%s], [%s]))", leanStr(r.typ), strings.Join(sg, ", "), strings.Join(rg, ", "))
+	}
+	b.WriteString("]\n/-- types for which `ValidateParams` accepts every level -/\n")
+	fmt.Fprintf(&b, "def anyLevelTypes : List String := %s\n", leanStrList(anyLevel))
+	b.WriteString("/-- every other (type, level) is accepted iff the level is this one -/\n")
+	fmt.Fprintf(&b, "def fallbackLevel : Int := %d\n", fallbackLevel)
+	b.WriteString("/-- `ToClient`: an unset level (0) is replaced by `DefaultCompressionLevel` -/\n")
+	fmt.Fprintf(&b, "def unsetLevelBecomes : Int := %d\n", unsetBecomes)
+	b.WriteString("/-- `newWriteCloserResetFunc`: does the writer constructor of this type receive the configured level? -/\n")
+	b.WriteString("def writerPassesLevel : List (String × Bool) := [")
+	for i, w := range passesLevel {
+		if i > 0 {
+			b.WriteString(", ")
+		}
+		fmt.Fprintf(&b, "(%s, %s)", leanStr(w[0]), w[1])
+	}
+	b.WriteString("]\n\n")
 	b.WriteString("/-- `IsCompressed` is false exactly for these -/\n")
 	fmt.Fprintf(&b, "def uncompressedTypes : List String := %s\n\n", leanStrList(uncompressed))
 	b.WriteString("end OtelVerif.Gen.Compression\n")
